@@ -560,13 +560,16 @@ func c14Lookup(c *Ctx, p *Prog) {
 	// environment constants
 	wantEnv := map[string][]string{"COLORTERM": {"truecolor", "24bit", "24-bit"}, "TCELL_TRUECOLOR": {"", "disable"}}
 	got := map[string]map[string]bool{}
-	eachInstr(fn, func(in ssa.Instruction) {
+	// (in LookupTerminfo or in a helper that answers the environment question for it)
+	envScan := func(in ssa.Instruction) {
 		call, ok := in.(*ssa.Call)
 		if !ok || calleeName(&call.Call) != "os.Getenv" {
 			return
 		}
 		name, _ := constString(call.Call.Args[0])
-		got[name] = map[string]bool{}
+		if got[name] == nil {
+			got[name] = map[string]bool{}
+		}
 		for _, r := range referrers(call) {
 			if bo, ok := r.(*ssa.BinOp); ok && (bo.Op == token.EQL || bo.Op == token.NEQ) {
 				if s, ok := constString(bo.Y); ok {
@@ -577,7 +580,10 @@ func c14Lookup(c *Ctx, p *Prog) {
 				}
 			}
 		}
-	})
+	}
+	for _, d := range deepInstrs(p, fn, 2, nil) {
+		envScan(d.in)
+	}
 	for _, env := range sortedKeys(wantEnv) {
 		ok := got[env] != nil
 		for _, v := range wantEnv[env] {
